@@ -25,11 +25,11 @@ CLAIMS["C12"] = ("exploration",
     _READER + " Frozen colour and font tables (data/*.json, sha256-pinned).",
     "property-based testing: exhaustive colour/font enumeration + Hypothesis palettes, reference-table oracle on independently parsed output")
 CLAIMS["C14"] = ("exploration",
-    "Model-based generation of call histories (construct with/without shared component objects, encode, failing encode, encode twice; indices modulo the live pool) over 31 document archetypes and pairs / triples of generated documents (in-place setting changes and re-written figure files included), exhaustive for histories of length <=2 over archetype x sharing menu; differential oracle against a freshly spawned interpreter encoding an equal-valued unshared document, plus repeat-call equality and DataFrame immutability. " + _EXPL,
+    "Model-based generation of call histories (construct with/without shared component objects, encode, failing encode, encode interrupted by an outside fault, encode twice; indices modulo the live pool) over 31 document archetypes and pairs / triples of generated documents (in-place setting changes and re-written figure files included), exhaustive for histories of length <=2 over archetype x sharing menu; differential oracle against a freshly spawned interpreter encoding an equal-valued unshared document, plus repeat-call equality and DataFrame immutability. " + _EXPL,
     "Equal-valued = same constructor arguments; the baseline interpreter is spawned per distinct recipe and cached for the run.",
     "property-based testing over histories: Hypothesis op-sequence strategy + exhaustive short histories, differential oracle vs fresh interpreter")
 CLAIMS["C15"] = ("exploration",
-    "The harness owns the schedule: a baton scheduler driven by sys.settrace call events gives deterministic interleavings; schedules in freshly spawned interpreters cover the calls only a cold process makes; every single-preemption schedule at every rtflite call boundary is enumerated for the listed document pairs (thorough: all ordered pairs and line-level preemption inside the modules holding global state), Hypothesis draws 2-3 preemption / 3-thread schedules; oracle = each thread's string equals the sequential result. " + _EXPL,
+    "The harness owns the schedule: a baton scheduler driven by sys.settrace call events gives deterministic interleavings; schedules in freshly spawned interpreters cover the calls only a cold process makes; every single-preemption schedule at every rtflite call boundary is enumerated for the listed document pairs (quick also: two-preemption grids for 8 key pairs and line-level preemption for the twin pair; thorough: all ordered pairs and line-level preemption inside the modules holding global state or shared helpers), Hypothesis draws 2-3 preemption / 3-thread schedules; oracle = each thread's string equals the sequential result. " + _EXPL,
     "Preemption granularity is rtflite function calls (lines in color_service.py / registry.py in thorough); C code in polars/pydantic is atomic under this scheduler.",
     "schedule enumeration + Hypothesis-generated schedules under a harness-owned deterministic scheduler, differential oracle vs sequential run")
 CLAIMS["C08"] = ("exploration",
